@@ -42,7 +42,7 @@ int main(void) {
       int n = atoi(arg);
       if (n < 0) { A = asm_create_instance(NULL, 0); ext_n = -1; }
       else {
-        area = malloc(2 * GZ + n + 1); memset(area, 0xAA, 2 * GZ + n + 1); memset(area + GZ, 0xCC, n);
+        size_t tot = (size_t)2 * GZ + (size_t)n + 1; area = malloc(tot); memset(area, 0xAA, tot); memset(area + GZ, 0xCC, (size_t)n);
         ext_n = n; A = asm_create_instance(area + GZ, n);
       }
       printf("create %s\n", A ? "ok" : "NULL");
@@ -76,7 +76,7 @@ int main(void) {
     } else if (!strcmp(line, "guards")) {
       int bad = 0;
       for (int i = 0; i < GZ; i++) if (area[i] != 0xAA) bad++;
-      for (int i = GZ + ext_n; i < 2 * GZ + ext_n + 1; i++) if (area[i] != 0xAA) bad++;
+      for (size_t i = (size_t)GZ + ext_n; i < (size_t)2 * GZ + ext_n + 1; i++) if (area[i] != 0xAA) bad++;
       printf(bad ? "GUARD-CORRUPT %d\n" : "GUARD-OK\n", bad);
     } else if (!strcmp(line, "state")) {
       printf("state offset=%d mode=%d chunk=%zu opt=%u len=%d\n", A->offset, (int)A->assembly_mode, A->chunk_size, A->assembly_opt, A->buffer_len);
